@@ -67,7 +67,7 @@ def run_case(spec):
         d = min(d, 6)
     obs = dict(sampled_points_checked=0, construction_points_checked=0, implication_probes=0,
                splits_accepted=0, splits_refused=0, trims=0, sample_calls=0, pool_sample_calls=0,
-               max_ellipsoids=0, periodic_bounds=0)
+               max_ellipsoids=0, periodic_bounds=0, large_construction_sets=0)
     viols = []
 
     def bad(key, what, **kw):
@@ -76,7 +76,17 @@ def run_case(spec):
 
     pool = None
     try:
-        prob = boundgen.problem(rng, shape, d)
+        big = basic and spec['i'] % 5 == 2
+        if big:
+            # large construction sets (12 000 - 30 000 points): whatever the fit does internally to stay fast, every
+            # construction point has to end up inside
+            d = min(d, 4)
+            n_big = int(rng.integers(12000, 30000))
+            prob = boundgen.problem(rng, shape, d, n_bg=2 * n_big, n_shape=n_big, n_live=n_big)
+            opts['enlarge_per_dim'] = float(rng.choice([1.02, 1.05]))
+            obs['large_construction_sets'] = 1
+        else:
+            prob = boundgen.problem(rng, shape, d)
         if kind == 'NautilusBound' and opts.get('force_periodic') and prob['periodic'] is None:
             prob['periodic'] = rng.choice(d, int(rng.integers(1, d + 1)), replace=False)
         if kind == 'NautilusBound' and not opts.get('force_periodic') and shape != 'wrapped':
